@@ -54,6 +54,18 @@ class Rec:
     def __init__(self):
         self.calls = []
 
+    def cancelling(self, target):
+        """A coroutine handler that ends in CancelledError (it awaited a task
+        of the application that was cancelled)."""
+        import asyncio
+
+        async def f(*a):
+            self.calls.append((target, list(a)))
+            fut = asyncio.get_event_loop().create_future()
+            fut.cancel()
+            await fut
+        return f
+
     def fn(self, target):
         def f(*a):
             self.calls.append((target, list(a)))
@@ -111,23 +123,31 @@ def judge(ctx, w, rec, want_t, want_args, has_method, sid=None, env=None):
     return True
 
 
-def server_case(ctx, kind, present, evkind, unrelated, has_method, co, rng):
+def server_case(ctx, kind, present, evkind, unrelated, has_method, co, rng,
+                cancel=False):
     import socketio
     ns = rng.choice(['/', '/a', '/chat'])
-    event = {'ordinary': rng.choice(['ev', 'my_event', 'x1']),
+    # on the server "connect_error" is an ordinary event name
+    event = {'ordinary': rng.choice(['ev', 'my_event', 'x1',
+                                     'connect_error']),
              'connect': 'connect', 'disconnect': 'disconnect'}[evkind]
     reserved = evkind != 'ordinary'
     d = D.make_drive(kind, async_handlers=False, namespaces='*')
     rec = Rec()
     try:
+        def reg(ev, target, nsp):
+            if cancel:
+                d.sio.on(ev, rec.cancelling(target), namespace=nsp)
+            else:
+                d.on(ev, rec.fn(target), nsp, co)
         if 1 in present:
-            d.on(event, rec.fn(1), ns, co)
+            reg(event, 1, ns)
         if 2 in present:
-            d.on('*', rec.fn(2), ns, co)
+            reg('*', 2, ns)
         if 3 in present:
-            d.on(event, rec.fn(3), '*', co)
+            reg(event, 3, '*')
         if 4 in present:
-            d.on('*', rec.fn(4), '*', co)
+            reg('*', 4, '*')
         base_cls = socketio.AsyncNamespace if d.is_async else \
             socketio.Namespace
         if 5 in present:
@@ -146,7 +166,7 @@ def server_case(ctx, kind, present, evkind, unrelated, has_method, co, rng):
         w = {'side': 'server', 'kind': kind, 'present': sorted(present),
              'event': event, 'reserved': reserved, 'unrelated': unrelated,
              'class_has_method': has_method, 'coroutine': co,
-             'namespace': ns, 'args': args}
+             'namespace': ns, 'args': args, 'handler_cancelled': cancel}
         if evkind == 'connect':
             t.connect(ns)
             sid = t.sids.get(ns)
@@ -172,8 +192,10 @@ def server_case(ctx, kind, present, evkind, unrelated, has_method, co, rng):
             return
         want_t, want_args = expected(present, reserved, base, event, ns)
         if judge(ctx, w, rec, want_t, want_args, has_method, sid, env):
+            if cancel:
+                ctx.count('cancelled_handler_routings')
             ctx.case(('server', kind, tuple(sorted(present)), evkind,
-                      unrelated, has_method, co),
+                      unrelated, has_method, co, cancel),
                      w if want_t in (3, 4, 6) and rng.random() < 0.02
                      else None)
     finally:
@@ -190,7 +212,8 @@ class RefusingScript(E.ServerScript):
             h.deliver(R.CONNECT_ERROR, pkt['nsp'], None, self.data)
 
 
-def client_case(ctx, kind, present, evkind, unrelated, has_method, co, rng):
+def client_case(ctx, kind, present, evkind, unrelated, has_method, co, rng,
+                cancel=False):
     import socketio
     ns = rng.choice(['/', '/a', '/chat'])
     event = {'ordinary': rng.choice(['ev', 'my_event', 'x1']),
@@ -203,14 +226,19 @@ def client_case(ctx, kind, present, evkind, unrelated, has_method, co, rng):
                       client_kw={'reconnection': False})
     rec = Rec()
     try:
+        def reg(ev, target, nsp):
+            if cancel:
+                h.c.on(ev, rec.cancelling(target), namespace=nsp)
+            else:
+                h.on(ev, rec.fn(target), nsp, co)
         if 1 in present:
-            h.on(event, rec.fn(1), ns, co)
+            reg(event, 1, ns)
         if 2 in present:
-            h.on('*', rec.fn(2), ns, co)
+            reg('*', 2, ns)
         if 3 in present:
-            h.on(event, rec.fn(3), '*', co)
+            reg(event, 3, '*')
         if 4 in present:
-            h.on('*', rec.fn(4), '*', co)
+            reg('*', 4, '*')
         base_cls = socketio.AsyncClientNamespace if h.is_async else \
             socketio.ClientNamespace
         if 5 in present:
@@ -226,7 +254,7 @@ def client_case(ctx, kind, present, evkind, unrelated, has_method, co, rng):
         w = {'side': 'client', 'kind': kind, 'present': sorted(present),
              'event': event, 'reserved': reserved, 'unrelated': unrelated,
              'class_has_method': has_method, 'coroutine': co,
-             'namespace': ns, 'args': args}
+             'namespace': ns, 'args': args, 'handler_cancelled': cancel}
         try:
             h.api('connect', 'http://x', namespaces=[ns], wait=True)
         except Exception as e:
@@ -266,8 +294,10 @@ def client_case(ctx, kind, present, evkind, unrelated, has_method, co, rng):
             return
         want_t, want_args = expected(present, reserved, base, event, ns)
         if judge(ctx, w, rec, want_t, want_args, has_method):
+            if cancel:
+                ctx.count('cancelled_handler_routings')
             ctx.case(('client', kind, tuple(sorted(present)), evkind,
-                      unrelated, has_method, co),
+                      unrelated, has_method, co, cancel),
                      w if want_t in (3, 4, 6) and rng.random() < 0.02
                      else None)
     finally:
@@ -298,6 +328,7 @@ def run(ctx):
         'a class-based namespace that lacks on_<event> is still the chosen '
         'target (nothing runs)']
     ctx.require('routings_judged', 1000)
+    ctx.require('cancelled_handler_routings', 20)
     n = 0
     combos = []
     for side, kinds in (('server', ('sync', 'async')),
@@ -324,6 +355,20 @@ def run(ctx):
         done += 1
         if ctx.too_many_violations():
             return
+        # asyncio: the winning coroutine function handler ends in
+        # CancelledError - still exactly one target runs (no fall-through to
+        # a class-based namespace)
+        if kind == 'async' and co and evkind == 'ordinary' and hm and \
+                (present & {1, 2, 3, 4}) and (present & {5, 6}):
+            rng = ctx.case_rng(10 ** 6 + i)
+            if side == 'server':
+                server_case(ctx, kind, present, evkind, unrelated, hm, co,
+                            rng, cancel=True)
+            else:
+                client_case(ctx, kind, present, evkind, unrelated, hm, co,
+                            rng, cancel=True)
+            if ctx.too_many_violations():
+                return
     ctx.exhaustive = True
     ctx.extra['grid_cases_run'] = done
     # random extra passes with different names/arguments while time remains
